@@ -281,7 +281,9 @@ pub fn check(exe: &std::path::Path, tag: &str, c: &Case, st: &mut Stats) {
             st.nontrivial(hash_str(&format!("{:?}{:?}", pre, pos)));
             st.count("runs_with_2+_distinct_replica_scores");
         }
-        if !(rel_diff(best, ws) <= 1e-12) {
+        // (exactly: the written structure is one of the replicas, and re-scoring what was read
+        // back gives that replica's score bit for bit - a best replica ahead by one ulp is ahead)
+        if !(ws == best) {
             st.violation(viol("written-structure-is-not-the-best-replica", c, json!({"replications": k, "replica_final_scores": finals.iter().map(|f| json!([f.0, f.1])).collect::<Vec<_>>(), "best": best, "written": ws})));
             return;
         }
@@ -329,7 +331,7 @@ pub fn gen_case<R: Rng>(rng: &mut R, i: usize, kmax: u64) -> Case {
 }
 
 pub fn run(ctx: &Ctx) {
-    ctx.set_rule("the real binary (hooks on) for 7 groups x {polygon 3..8, circle, trimer variants} x {Hard, LJ} x replications 1..K (K = 4 quick / 12 thorough) x step settings, under RAYON_NUM_THREADS in {1,2,3,8}: the hook log gives every replica's final score; the written JSON is re-read and re-scored by the library. Checked: written score = max of the replica scores, logged 'Final score' = score of the written structure (1e-12), score(k+1 replications) >= score(k), wallpaper name / crystal family / copy count / shape geometry recomputed from argv against an independent table. Non-trivial = runs whose replicas have >= 2 distinct final scores; distinct by argv; plus single runs with 257, 1001, 1025 (thorough: up to 10,001) replications whose written score must be the maximum of all replica scores in the hook log");
+    ctx.set_rule("the real binary (hooks on) for 7 groups x {polygon 3..8, circle, trimer variants} x {Hard, LJ} x replications 1..K (K = 4 quick / 12 thorough) x step settings, under RAYON_NUM_THREADS in {1,2,3,8}: the hook log gives every replica's final score; the written JSON is re-read and re-scored by the library. Checked: written score = max of the replica scores (exactly; also for replicas a few ulps apart, from steps of 2e-17..1e-14), logged 'Final score' = score of the written structure (1e-12), score(k+1 replications) >= score(k), wallpaper name / crystal family / copy count / shape geometry recomputed from argv against an independent table. Non-trivial = runs whose replicas have >= 2 distinct final scores; distinct by argv; plus single runs with 257, 1001, 1025 (thorough: up to 10,001) replications whose written score must be the maximum of all replica scores in the hook log");
     let exe = match ctx.args.cli.clone() {
         Some(e) => e,
         None => {
@@ -373,6 +375,11 @@ pub fn run(ctx: &Ctx) {
     };
     for (g, shape, lj, reps) in big.iter() {
         cases.push(Case { group: g.to_string(), shape: shape.to_string(), sides: 4, radius: 0.637556, angle: 120., distance: 1., lj: *lj, max_replications: 1, steps: 1, inner_steps: 1, extra: vec![], fixed_replications: Some(*reps), start_config_from: None });
+    }
+    // replicas a few ulps apart: steps of the size of the rounding of the parameters
+    for (i, step) in ["3e-16", "1e-16", "1e-15", "2e-17", "1e-14"].iter().enumerate() {
+        let (g, shape, sides) = [("p2", "polygon", 4usize), ("p1", "polygon", 3), ("p2gg", "circle", 4), ("p2mg", "polygon", 5), ("p1m1", "trimer", 4)][i];
+        cases.push(Case { group: g.to_string(), shape: shape.to_string(), sides, radius: 0.637556, angle: 120., distance: 1., lj: false, max_replications: 1, steps: 100, inner_steps: 100, extra: vec!["--kt-start".into(), "0.1".into(), "--kt-ratio".into(), "0.5".into(), "--max-step-size".into(), step.to_string()], fixed_replications: Some(6 + i as u64 * 5), start_config_from: None });
     }
     // many replicas converging onto near-tied scores: the written one must still be the best
     for (g, shape, lj, reps, steps, step) in [("p1", "circle", true, 48u64, 150u64, "0.02"), ("p2", "circle", true, 40, 400, "0.02"), ("p1", "polygon", false, 32, 600, "0.05")].iter() {
